@@ -29,6 +29,7 @@ func init() {
 			"C09.R4 unconditional refresh in the distribution loop; per-processor trigger-list map; merge loop reads the keys of the receiver's own set; fan-out passes the receiver's own list",
 			"C09.R6 the secondary cutter creates one record per listed frame; a skip test is accepted only if, as polynomials, it removes no position of the window in which primaries are found",
 			"C09.R5 results of edit calls with request-derived arguments are used",
+			"C09.R9 the loops that walk an edit request (over its map of sources, over each receiver list; in the request function or a helper handed the request) are left only when exhausted or with an error",
 			"C09.R8 when the connection table stores a value per (receiver, source) pair, every reader that walks a receiver's entries tests the stored value (an entry that is present but false is not a connection)",
 		},
 		Assumptions: []string{"TriggerBroker and its fields sources/nconnections/nchannels/latestPrimaries are name-keyed anchors"},
@@ -79,6 +80,8 @@ func runC09(p *Prog, r *Report) {
 	c09R5(p, r, rv)
 	c09R6(p, r)
 	c09R7(p, r)
+	r.MinInstances["C09.R9"] = 1
+	c09R9(p, r)
 }
 
 type setEdit struct {
@@ -447,6 +450,65 @@ func c09R1R2(p *Prog, r *Report, inv *LenInvariants, rv *Rendezvous) {
 		up(f, 0)
 		r.Check(bad == "", "C09.R1w", "wholesale reset "+FuncName(f)+" reachable only from the stop-coupling request", p.Pos(f.Pos()),
 			"every caller chain is the stop-coupling request", "the wholesale reset of the connection set is called from "+bad+": an unrelated request wipes user connections (edits no longer act as a set)")
+	}
+	// ... and the other way round: the stop-coupling request ends in the wholesale reset for every
+	// kind of source.  The request calls a method of the data-source interface; every concrete
+	// method that call can reach passes a call that leads to the reset on each successful return.
+	if len(rf) > 0 {
+		reachesReset := func(in ssa.Instruction) bool {
+			if CallOf(in) == nil {
+				return false
+			}
+			for _, c := range p.callees(in) {
+				if resetFns[c] {
+					return true
+				}
+				if ok, _ := p.Reaches(c, func(x *ssa.Function) bool { return resetFns[x] }, 3); ok {
+					return true
+				}
+			}
+			return false
+		}
+		judged := map[*ssa.Function]bool{}
+		for _, fn := range p.LibFuncs() {
+			if !strings.Contains(FuncName(fn), "StopTriggerCoupling") || fn.Signature.Recv() != nil && !strings.Contains(FuncName(fn), "$") && typeName(fn.Signature.Recv().Type()) != "SourceControl" {
+				continue
+			}
+			Instrs(fn, func(in ssa.Instruction) {
+				cc := CallOf(in)
+				if cc == nil || !cc.IsInvoke() || !strings.Contains(cc.Method.Name(), "StopTriggerCoupling") {
+					return
+				}
+				for _, g := range p.callees(in) {
+					if judged[g] || !isModuleFn(g) || len(g.Blocks) == 0 {
+						continue
+					}
+					judged[g] = true
+					r.Fn(FuncName(g))
+					// a return that may report success: anything but a freshly made error
+					maySucceed := func(x ssa.Instruction) bool {
+						ret, ok := x.(*ssa.Return)
+						if !ok || ret.Block() == g.Recover {
+							return false
+						}
+						if n := len(ret.Results); n > 0 && isErrorType(ret.Results[n-1].Type()) {
+							return !definitelyNonNilError(returnedValue(ret, n-1))
+						}
+						return true
+					}
+					esc := ReachAvoiding(g, nil, reachesReset, maySucceed)
+					pos := p.Pos(g.Pos())
+					if len(esc) > 0 {
+						pos = p.InstrPos(esc[0])
+					}
+					r.Check(len(esc) == 0, "C09.R1w", FuncName(g)+": a stop-coupling request clears every connection", pos, "every successful return has passed the wholesale reset of the connection set",
+						"this source's way of serving a stop-coupling request can return without the wholesale reset of the connection set: connections the user made (other than the ones this method removes itself) stay in force and keep producing secondary records after the request was answered as done")
+				}
+			})
+		}
+		if len(judged) == 0 {
+			r.Unk("C09.R1w", "the stop-coupling request reaches the wholesale reset", "-", "no call of a StopTriggerCoupling method of the data-source interface found in the request")
+		}
 	}
 }
 
@@ -1351,4 +1413,75 @@ func mentionsAny(q, of Poly) bool {
 		}
 	}
 	return false
+}
+
+// ---- R9: every pair named in an edit request is applied ---------------------------------------
+
+// c09R9: an edit request lists, per source, the receivers to connect or disconnect.  The loops
+// that walk the request (over its map of sources and over each list of receivers), in the request
+// function or in a helper it hands the request to, are left only when exhausted or by returning an
+// error: a `break` (or a success return) inside them drops the pairs that come after.
+func c09R9(p *Prog, r *Report) {
+	top := p.Func("", "AnySource", "ChangeGroupTrigger")
+	if top == nil {
+		r.Unk("C09.R9", "AnySource.ChangeGroupTrigger", "-", "name-keyed anchor not found")
+		return
+	}
+	n := 0
+	for _, f := range DeepFuncs(top, 2) {
+		// loops over the request's map and, inside, over a list taken from it
+		var outer []*ssa.BasicBlock // headers of range-over-map loops on the Connections field
+		Instrs(f, func(in ssa.Instruction) {
+			rg, ok := in.(*ssa.Range)
+			if !ok {
+				return
+			}
+			if _, fld, _, okf := FieldOf(rg.X); okf && fld == "Connections" {
+				// the loop header: the block of the Next on this iterator
+				for _, ref := range *rg.Referrers() {
+					if nx, isNx := ref.(*ssa.Next); isNx {
+						outer = append(outer, nx.Block())
+					}
+				}
+			}
+		})
+		if len(outer) == 0 {
+			continue
+		}
+		r.Fn(FuncName(f))
+		for _, h := range outer {
+			n++
+			bad := ""
+			for _, b := range f.Blocks {
+				if b == h || !naturalLoopContains(h, b) {
+					continue
+				}
+				// exits of inner loops and of the outer loop from inside the body
+				for _, l := range RangeLoops(f) {
+					if !naturalLoopContains(h, l.Header) || !l.Contains(b) || b == l.Header {
+						continue
+					}
+					for _, sc := range b.Succs {
+						if !l.Contains(sc) && sc != l.Header {
+							if !(len(sc.Instrs) > 0 && isErrReturn(sc.Instrs[len(sc.Instrs)-1]) && len(sc.Instrs) <= 3) {
+								bad = p.InstrPos(b.Instrs[len(b.Instrs)-1])
+							}
+						}
+					}
+				}
+				for _, sc := range b.Succs {
+					if !naturalLoopContains(h, sc) {
+						if !(len(sc.Instrs) > 0 && isErrReturn(sc.Instrs[len(sc.Instrs)-1])) {
+							bad = p.InstrPos(b.Instrs[len(b.Instrs)-1])
+						}
+					}
+				}
+			}
+			r.Check(bad == "", "C09.R9", FuncName(f)+": the walk over the request visits every listed pair", p.InstrPos(h.Instrs[0]), "the loops over the sources and over each receiver list are left only when exhausted (or with an error)",
+				"a loop over the request is left early at "+bad+" without an error: the receivers (or sources) listed after that point are silently not connected / disconnected, although the request is answered as done")
+		}
+	}
+	if n == 0 {
+		r.Unk("C09.R9", "walk over the edit request", p.Pos(top.Pos()), "no loop over the request's Connections map found in the request function or its helpers")
+	}
 }
